@@ -44,6 +44,10 @@ func casFor(class string, seq uint64) uint64 {
 		return uint64(skipT.Unix()-50) * 1_000_000_000
 	case "at":
 		return uint64(skipT.Unix()) * 1_000_000_000
+	case "high":
+		// a CAS with the top bit set (legal: CAS is an unsigned 64-bit value; such values do not look like
+		// timestamps but must be carried and converted as what they are)
+		return 1<<63 + uint64(seq)*1_000_000_000
 	}
 	return uint64(skipT.Unix()+50+int64(seq)) * 1_000_000_000
 }
@@ -88,6 +92,12 @@ func symbolPacket(sym string, seq uint64) gocbcore.SimPacket {
 		return docPacket("mutation", seq, "order"+txnPrefix+fmt.Sprint(seq), "after", 0)
 	case "Dinfix":
 		return docPacket("deletion", seq, "x"+reservedPrefix+"y", "after", 0)
+	case "Mhighcas":
+		return docPacket("mutation", seq, fmt.Sprintf("hc%d", seq), "high", 0)
+	case "Dhighcas":
+		return docPacket("deletion", seq, fmt.Sprintf("hc%d", seq), "high", 0)
+	case "Mshort": // a user key that is a proper prefix of a reserved prefix
+		return docPacket("mutation", seq, []string{"_txn", "_connector", "_"}[seq%3], "after", 0)
 	case "Mempty":
 		return docPacket("mutation", seq, "", "after", 0)
 	case "Mbin":
@@ -751,8 +761,11 @@ func pipeMain(p PipeParams) {
 				pp.hist = append(pp.hist, fmt.Sprintf("commit(fail=%v)", pp.failSave))
 			}
 			before := map[uint16]uint64{}
+			storedBefore := map[uint16]refOffset{}
+			hadBefore := map[uint16]bool{}
 			for vb := uint16(0); vb < 2; vb++ {
 				before[vb] = pp.oblig[vb]
+				storedBefore[vb], hadBefore[vb] = pp.stored(vb)
 			}
 			if viaCtx != nil {
 				viaCtx.Ctx.Commit()
@@ -773,6 +786,11 @@ func pipeMain(p PipeParams) {
 					if before[vb] > pp.resume[vb] && st.seq < before[vb] {
 						pp.fail("commit: vb%d stored %d, but %d was settled (acknowledged / system event) before the save", vb, st.seq, before[vb])
 					}
+					// nothing stored by this or an earlier session is lost or moved backwards by a save
+					// (these histories contain no rollback)
+					if st2, ok := pp.stored(vb); hadBefore[vb] && (!ok || st2.seq < storedBefore[vb].seq) {
+						pp.fail("commit: the stored checkpoint of vb%d was %v before the save and is %v (present=%v) after it: acknowledged and stored work was forgotten", vb, storedBefore[vb], st2, ok)
+					}
 				}
 			}
 			pp.failSave = false
@@ -784,6 +802,11 @@ func pipeMain(p PipeParams) {
 			// call returned) before the next operation; acknowledgements racing a save are C05's scenarios
 			vrt.Quiesce()
 			pp.c.WaitIdle()
+		case op == "restart":
+			// the process is restarted (a new metadata object over the same store) and the history CONTINUES
+			pp.hist = append(pp.hist, "restart")
+			pp.checkAll()
+			pp.crashRestart()
 		case op == "crash":
 			pp.hist = append(pp.hist, "crash")
 			pp.checkAll()
